@@ -47,6 +47,18 @@ FirstFail(s2, e) ==
   ELSE IF On("grad")  /\ \E h \in hs : ~OptEq(o.t[h].g, ObsGrad(s2, h)) THEN "grad"
   ELSE IF On("gshare") /\ ObsPairs(o.gshare) # GradSharePairs(s2) THEN "gshare"
   ELSE IF On("track") /\ o.track # s2.track THEN "track"
+  \* after backward(): the terminal and everything upstream has no creator and no recorded consumers (C07)
+  ELSE IF On("released") /\ e.stmt.k = "backward" /\ s2.track /\
+          \E h \in hs : ~HasCr(s2, h) /\ s2.N[s2.H[h].node].clrAt = s2.clk /\ o.t[h].nops # 0 THEN "released"
+  \* nothing that the caller no longer references stays alive (reference counting alone, C07)
+  ELSE IF On("leak") /\ o.leak # 0 THEN "leak"
+  \* caller-owned arrays (operands, index objects, seeds) are never modified (C12)
+  ELSE IF On("inputs") /\ o.mut # 0 THEN "inputs"
+  \* a gradient never aliases any tensor's data (C12)
+  ELSE IF On("gdata") /\ o.gdata # <<>> THEN "gdata"
+  \* a stored gradient is an ndarray with the tensor's shape and dtype (C14)
+  ELSE IF On("gtyped") /\ \E h \in hs : ~o.t[h].g.none /\ (o.t[h].gsh # o.t[h].sh \/ o.t[h].gdt # o.t[h].dt \/ ~o.t[h].gnd)
+       THEN "gtyped"
   ELSE "ok"
 
 Detail(s2, e, v) ==
@@ -70,12 +82,21 @@ Admissible(s, e, prev) ==
   \/ e.exc_np # "none" /\ e.exc # "none"
   \/ e.exc = "InvalidBackprop" /\ e.stmt.k = "backward" /\ PartialClear(s, e.stmt.h)
   \/ e.exc = "ValueError" /\ InPlaceStmt(e.stmt) /\ ~s.track /\ ~prev.t[Target(e.stmt)].wr
+  \* a seed that does not broadcast to the terminal's shape (C14)
+  \/ e.exc = "ValueError" /\ e.stmt.k = "backward" /\ Has(e.stmt, "seed") /\ ~SeedOK(s, e.stmt)
+  \* constant=False requested for an integer-valued result (C10)
+  \/ e.exc = "ValueError" /\ e.stmt.k = "op" /\ Kw(Kw(e.stmt, "kw", <<>>), "constant", "none") = "false"
+       /\ Has(e.stmt, "intres")
 \* what a failed statement may leave behind: nothing, except that a failed in-place update may already have
 \* dropped the (stale) gradient of its target's family
 FailStates(s, stmt) ==
   LET s0 == [s EXCEPT !.clk = @ + 1] IN
   IF InPlaceStmt(stmt) /\ s.track
   THEN LET r == Root(s, Target(stmt)) IN {s0, [s0 EXCEPT !.g[r] = None], [s0 EXCEPT !.H[Target(stmt)].gc = 0]}
+  ELSE IF stmt.k = "backward" /\ s.track /\ ~s.H[stmt.h].const
+  \* a rejected seed: no gradient is written, but the traversal has already dropped the stale gradients upstream
+  THEN LET vis == {h \in Handles(s) : s.H[h].node \in UpDiff(s, s.H[stmt.h].node)} IN
+       {s0, [s0 EXCEPT !.g = [h \in DOMAIN @ |-> IF h \in vis /\ s.H[h].base = 0 THEN None ELSE @[h]]]}
   ELSE {s0}
 
 TInit == tid \in 1..Len(Traces) /\ l = 1 /\ st = InitSt /\ verdict = "ok"
